@@ -324,6 +324,11 @@ func childMain(path string) {
 		emit("DONE")
 		return
 	}
+	if len(h.Ops) > 0 && strings.HasPrefix(h.Ops[0], "rebind") {
+		rebind(&h, emit)
+		emit("DONE")
+		return
+	}
 	T := newSide("T", &h)
 	R := newSide("R", &h)
 	for k, op := range h.Ops {
